@@ -239,14 +239,11 @@ theorem endsWith_append (a b : Str) : endsWith (a ++ b) b = true := by
 /-- what `pop()` returns and the text it leaves -/
 def popView (p : PathObj) : Except PErr (Seg × Str) := (p.pop).map (fun x => (x.1, x.2.original))
 
-/-- **append_pop (partial).**  FULL STATEMENT wanted: for a written well-formed path `t` and the
-canonical text `seg` of one more segment, `YAMLPath(t).append(seg)` followed by `pop()` returns that
-segment and leaves the text `t`.  Proved here: `pop()` on the lengthened text `o1 = t ++ sep :: seg`
-returns the last (unescaped) segment `last` and restores exactly `t` WHENEVER `seg` is the
-library's own rendering of `last` (hypothesis `hr`; this is how the check builds `seg`).
-Missing: the strip=false twins of the simulation lemmas, which would discharge `hu`, `hl`, `hr` for
-canonical texts.  `append_text` is the other half: what `append` does to the text. -/
-theorem append_pop_partial (t seg : Str) (o1 : Str) (hn : normOriginal o1 = o1) (hnt : normOriginal t = t)
+/-- `pop()` on a lengthened text `o1 = t ++ sep :: seg` returns the last (unescaped) segment `last`
+and restores exactly `t` whenever `seg` is the library's own rendering of `last` (`hr`) and `o1` has
+the unescaped segments `u` ending in `last`.  (`append_pop_partial` below discharges the hypotheses
+for written paths; `append_text` says what `append` does to the text.) -/
+theorem pop_of_rendered (t seg : Str) (o1 : Str) (hn : normOriginal o1 = o1) (hnt : normOriginal t = t)
     (ho : o1 = t ++ (inferSep o1).char :: seg)
     (u : List Seg) (last : Seg)
     (hu : parseWith (inferSep o1).isFslash false o1 = .ok u) (hl : u.getLast? = some last)
@@ -296,6 +293,58 @@ theorem append_text (t seg : Str) (hnt : normOriginal t = t) (ht : t ≠ []) :
     | cons c r => simp
   simp [PathObj.append, PathObj.new, PathObj.setOriginal, PathObj.getSep, hnt, hl]
 
+/-- **append_pop (partial only by finding C08-6).**  FULL STATEMENT: for every well-formed list
+`segs ≠ []` written in either notation and every further segment `sg` such that `segs ++ [sg]` is
+well-formed, `YAMLPath(text).append(canonical text of sg)` followed by `pop()` returns that segment
+(in its unescaped form) and leaves exactly the original text.  Proved for all of them except the
+inputs on which the pinned code fails (reproduced on /repo): `appendable` excludes an `&(…)`
+collector — `YAMLPath("(a)").append("&(b)")` is read as `(a)(b)` and `pop()` leaves `(a).&` — and an
+anchor whose name starts with `+ - &` directly behind a collector; `fslashExpressible` /
+`dotExpressible` are the restrictions of `parse_write_inferred_partial` on the text one starts from.
+`segText f sg` is the library's own rendering of the segment (what the check appends). -/
+theorem append_pop_partial (f : Bool) (segs : List Seg) (sg : Seg) (hne : segs ≠ [])
+    (hwf : wfSegs (segs ++ [sg]) = true) (happ : appendable (lastIsColl false segs) sg = true)
+    (hx : if f then fslashExpressible segs = true else dotExpressible segs = true) :
+    popView ((PathObj.new (write f segs)).append (Sim.segText f sg)) =
+      .ok (keepEsc (Sim.sepOf f) sg, write f segs) := by
+  have hxf : f = true → fslashExpressible segs = true := by
+    intro h; subst h; exact hx
+  have hw : wfSegs segs = true := by
+    simp only [wfSegs, Sim.wfFrom_append, Bool.and_eq_true] at hwf
+    exact hwf.1
+  obtain ⟨hn, hu⟩ := Sim.append_parse f segs sg hne hwf happ hxf
+  have hnt := Sim.write_nonblank f segs hw
+  have hwne : write f segs ≠ [] := by
+    intro h0
+    have := parse_write_partial f segs hw hxf
+    rw [h0, Sim.parseWith_nil] at this
+    exact hne (Except.ok.inj this).symm
+  have hhead : if f then (write f segs).head? = some '/' else (write f segs).head? ≠ some '/' := by
+    cases f
+    · simpa [dotExpressible] using hx
+    · simp [write]
+  obtain ⟨hs1, _⟩ := inferSep_of_head f hwne hhead
+  have hhead2 : ∀ x : Str, if f then (write f segs ++ x).head? = some '/'
+      else (write f segs ++ x).head? ≠ some '/' := by
+    intro x
+    cases hw0 : write f segs with
+    | nil => exact absurd hw0 hwne
+    | cons c r => rw [hw0] at hhead; simpa using hhead
+  have hs2 : ∀ x : Str, inferSep (write f segs ++ x) = if f then .fslash else .dot :=
+    fun x => (inferSep_of_head f (by simp [hwne]) (hhead2 x)).1
+  rw [append_text _ _ hnt hwne, hs1]
+  have hc : (if (if f then SepOpt.fslash else SepOpt.dot) = SepOpt.dot then '.' else '/')
+      = Sim.sepOf f := by cases f <;> rfl
+  rw [hc]
+  apply pop_of_rendered (write f segs) (Sim.segText f sg) _ hn hnt
+    (by rw [hs2]; cases f <;> rfl)
+    (segs.map (keepEsc (Sim.sepOf f)) ++ [keepEsc (Sim.sepOf f) sg]) (keepEsc (Sim.sepOf f) sg)
+  · rw [hs2]
+    cases f <;> exact hu
+  · simp
+  · rw [hs2]
+    cases f <;> simp [render, Sim.segText, Sim.sepOf, SepOpt.isFslash, SepOpt.char]
+
 /-! Witnesses: the hypotheses are met by concrete, non-trivial values. -/
 
 def demo : List Seg :=
@@ -319,6 +368,14 @@ example : wfSegs demoAll = true ∧ parse true (write false demoAll) = .ok demoA
 example : dotExpressible [(.key, .str "/a".toList)] = false ∧
     parse true (write false [(.key, .str "/a".toList)]) = .ok [(.key, .str "a".toList)] := by
   decide +kernel
+/-- `append_pop_partial` is not vacuous: a list with every kind, lengthened by a search segment -/
+example : wfSegs (demoAll ++ [(.search, .search false .regex "a.b".toList "x y".toList)]) = true ∧
+    appendable (lastIsColl false demoAll) (.search, .search false .regex "a.b".toList "x y".toList) = true ∧
+    fslashExpressible demoAll = true ∧ dotExpressible demoAll = true := by decide +kernel
+/-- the excluded append (finding C08-6, second face): the model, like /repo, reads `(a).&(b)` as two
+plain collectors and `pop()` leaves `(a).&` -/
+example : popView ((PathObj.new "(a)".toList).append "&(b)".toList)
+    = .ok ((.collector, .collector "b".toList .none), "(a).&".toList) := by decide +kernel
 /-- append then pop on a concrete path (model): the segment comes back and the text is restored -/
 example : popView ((PathObj.new "a.b[1]".toList).append "c\\.d".toList)
     = .ok ((.key, .str "c\\.d".toList), "a.b[1]".toList) := by decide +kernel
